@@ -1,6 +1,6 @@
 CONSTANTS MaxDepth = 3 NodesPerIter = 2 DepthLimits = {0, 2, 5} RootMoves = {"m1", "m2", "m3"}
           SearchMoves = {{}, {"m2", "m3"}} MaxGos = 2
-          ResetInGo = FALSE BestFallback = FALSE ClampDepth = TRUE TTMoveGuard = TRUE PrunedValue = TRUE LimitPollOverwrites = FALSE RunningGuard = FALSE
+          ResetInGo = FALSE BestFallback = FALSE ClampDepth = TRUE TTMoveGuard = TRUE PrunedValue = TRUE LimitPollOverwrites = FALSE RunningGuard = FALSE JoinThread = TRUE WithQuit = FALSE
 SPECIFICATION FairSpec
 INVARIANTS BestIsRootMove BestInSearchMoves OneBestPerGo InfoDepthsConsecutive DepthWithinLimit PrevMovesIndexInBounds NoMateZero StopPrompt StopNeverLost
 PROPERTIES NoIterationStartsAfterStop StopAnswered GoAnswered ReadyAnswered
